@@ -176,7 +176,7 @@ type Check struct {
 	NeedMarks []string
 	Workers   int // 0 => 16
 	CPUSec    int // per-case CPU seconds (default 120)
-	WallSec   int // per-batch wall-clock watchdog (default 900); firing is inconclusive
+	WallSec   int // wall-clock watchdog (default 900 s without journal growth and without CPU use by the worker); firing is inconclusive
 	BatchMax  int // max cases per worker process (default: spread evenly)
 	NoRlimitAS bool
 	DeathKey   func(c Case, class, stderr, note string) string
